@@ -35,7 +35,7 @@ def pred (j : Json) : P Pred := do
       let ss ← getList tstate j "states"
       let sh ← getInt j "shape"
       let cached ← getBool j "cache"
-      let cache := if cached then (match createOccSet sh ss with | .ok c => some c | .error _ => none) else none
+      let cache := if cached then (match createOccs sh ss with | .ok c => some c | .error _ => none) else none
       pure (.traj (← getInt j "t1") ss sh cache)
     | k => throw s!"pred: unknown kind {k}"
 
@@ -65,10 +65,18 @@ def obstacle (j : Json) : P Obstacle := do
   | "env" => pure (.environment id (← getInt j "shape"))
   | k => throw s!"obstacle: unknown kind {k}"
 
+def dynEntry (j : Json) : P (Int × List Nat) := do
+  match ← asArr j with
+  | [t, ids] => pure (← asInt t, ← listOf asNat ids)
+  | _ => throw "dynEntry: expected [t, ids]"
+
 def lanelet (j : Json) : P Lanelet := do
   match ← asArr j with
-  | [i, cells] => pure ⟨← asNat i, ← listOf asInt cells⟩
-  | _ => throw "lanelet: expected [id, cells]"
+  | [i, cells] => pure { id := ← asNat i, cells := ← listOf asInt cells }
+  | [i, cells, su, pr, st, dy, li] =>
+    pure { id := ← asNat i, cells := ← listOf asInt cells, succ := ← listOf asNat su, pred := ← listOf asNat pr,
+           staticObs := ← listOf asNat st, dynObs := ← listOf dynEntry dy, lights := ← listOf asNat li }
+  | _ => throw "lanelet: expected [id, cells, succ, pred, static, dynamic]"
 
 def elem (j : Json) : P CR.TL.Elem := do
   match ← asArr j with
@@ -77,11 +85,11 @@ def elem (j : Json) : P CR.TL.Elem := do
 
 def light (j : Json) : P Light := do
   match ← asArr j with
-  | [i, es, off, cached] =>
+  | [i, es, off, cached, active] =>
     let es ← listOf elem es
     let off ← asInt off
-    pure ⟨← asNat i, es, off, if ← asBool cached then some (CR.TL.initSteps es off) else none⟩
-  | _ => throw "light: expected [id, elements, offset, cached]"
+    pure ⟨← asNat i, es, off, if ← asBool cached then some (CR.TL.initSteps es off) else none, ← asBool active⟩
+  | _ => throw "light: expected [id, elements, offset, cached, active]"
 
 def item (j : Json) : P (Nat × List Nat) := do
   match ← asArr j with
@@ -101,10 +109,25 @@ def tbl (j : Json) : P (Option Tbl) := do
       pure (some ⟨kind, ← listOf item items⟩)
     | _ => throw "tbl: expected [kind, items]"
 
+def nameTok (j : Json) : P (String × Int) := do
+  match ← asArr j with
+  | [n, v] => pure (← asStr n, ← asInt v)
+  | _ => throw "nameTok: expected [name, token]"
+
+def keyed (j : Json) : P (Nat × Attrs) := do
+  match ← asArr j with
+  | [i, a] => pure (← asNat i, ← listOf nameTok a)
+  | _ => throw "keyed: expected [id, attrs]"
+
+def extra (j : Json) : P Extra := do
+  pure { scenario := ← getList nameTok j "scenario", network := ← getList nameTok j "network",
+         obstacles := ← getList keyed j "obstacles", lanelets := ← getList keyed j "lanelets", signs := ← getList keyed j "signs",
+         lights := ← getList keyed j "lights", intersections := ← getList keyed j "intersections" }
+
 def problem (j : Json) : P Problem := do
   match ← asArr j with
-  | [i, g, t] => pure ⟨← asNat i, ← listOf asBool g, ← tbl t⟩
-  | _ => throw "problem: expected [id, goal-has-position flags, table]"
+  | [i, init, g, t] => pure ⟨← asNat i, ← tstate init, ← listOf (listOf nameTok) g, ← tbl t⟩
+  | _ => throw "problem: expected [id, initial state, goal states, table]"
 
 def st (j : Json) : P St := do
   let nj ← field j "net"
@@ -112,7 +135,10 @@ def st (j : Json) : P St := do
   pure { obstacles := ← getList obstacle j "obstacles"
          net := ⟨ls, if ← getBool nj "index" then some ls else none⟩
          lights := ← getList light j "lights"
-         problems := ← getList problem j "problems" }
+         problems := ← getList problem j "problems"
+         extra := ← match fieldOpt j "extra" with
+           | some e => extra e
+           | none => pure {} }
 
 def query (j : Json) : P (Nat × Int) := do
   match ← asArr j with
@@ -128,8 +154,64 @@ def role (j : Json) : P (Option Role) :=
   | .str "ENVIRONMENT" => pure (some .environment)
   | j => throw s!"role: {j}"
 
+def pair (j : Json) : P (Nat × Nat) := do
+  match ← asArr j with
+  | [a, b] => pure (← asNat a, ← asNat b)
+  | _ => throw "pair: expected [a, b]"
+
+def target (j : Json) : P Target :=
+  match j with
+  | .str "scenario" => pure .scenario
+  | .str "pps" => pure .problems
+  | .str "net" => pure .net
+  | .arr #[.str "obstacle", i] => do pure (.obstacle (← asNat i))
+  | .arr #[.str "problem", i] => do pure (.problem (← asNat i))
+  | j => throw s!"target: {j}"
+
+def stLoc (j : Json) : P StLoc := do
+  match ← getStr j "k" with
+  | "foreign" => pure (.foreign (← tstate (← field j "st")))
+  | "init" => pure (.obsInit (← getNat j "oid"))
+  | "traj" => pure (.obsTraj (← getNat j "oid") (← getNat j "i"))
+  | "prob" => pure .probInit
+  | k => throw s!"stLoc: {k}"
+
+def trajSrc (j : Json) : P TrajSrc := do
+  match ← getStr j "k" with
+  | "foreign" => pure (.foreign (← getList tstate j "states"))
+  | "own" => pure (.own (← getNat j "oid"))
+  | k => throw s!"trajSrc: {k}"
+
+def drawP (j : Json) : P DrawP := do
+  pure { scenario := ← getBool j "scenario", tb := ← getInt j "tb", te := ← getInt j "te", drawOcc := ← getBool j "occ",
+         drawIcon := ← getBool j "icon", iconIds := ← getList asNat j "iconIds", history := ← getNat j "history" }
+
+def errOf (s : String) : P CR.Err :=
+  match s with
+  | "assert" => pure .assert | "value" => pure .value | "key" => pure .key | "attr" => pure .attr
+  | "type" => pure .type | "zero-div" => pure .zeroDiv | "index" => pure .index | "other" => pure .other
+  | s => throw s!"unknown error class {s}"
+
+/-- a decision: true / false / {"err": class} -/
+def decision (j : Json) : P (CR.Res Bool) :=
+  match j with
+  | .bool b => pure (.ok b)
+  | j => do pure (.error (← errOf (← getStr j "err")))
+
 def op (j : Json) : P Op := do
   match ← asArr j with
+  | [.str "reached", pid, loc, dec] => pure (.reached (← asNat pid) (← stLoc loc) (← listOf decision dec))
+  | [.str "goalReached", pid, src, decs] => pure (.goalReached (← asNat pid) (← trajSrc src) (← listOf (listOf decision) decs))
+  | [.str "eq", t] => pure (.eq (← target t))
+  | [.str "hash", t] => pure (.hash (← target t))
+  | [.str "shallowCopy", t] => pure (.shallowCopy (← target t))
+  | [.str "byIntervals", t, ins] => pure (.byIntervals (← asInt t) (← listOf asNat ins))
+  | [.str "findShape", sh] => pure (.findShape (← asInt sh))
+  | [.str "mapObstacles", oids, rel] => pure (.mapObstacles (← listOf asNat oids) (← listOf pair rel))
+  | [.str "getObstacles", lid, oids, t, rel] => pure (.getObstacles (← asNat lid) (← listOf asNat oids) (← asInt t) (← listOf pair rel))
+  | [.str "dynByTime", lid, t] => pure (.dynByTime (← asNat lid) (← asInt t))
+  | [.str "mergeFrom", lid, paths] => pure (.mergeFrom (← asNat lid) (← listOf (listOf asNat) paths))
+  | [.str "draw", p] => pure (.draw (← drawP p))
   | [.str "occ", i, t] => pure (.occ (← asNat i) (← asInt t))
   | [.str "state", i, t] => pure (.state (← asNat i) (← asInt t))
   | [.str "occs", t, r] => pure (.occs (← asInt t) (← role r))
@@ -174,13 +256,25 @@ def tblJ : Option Tbl → Json
   | some t => arr [Json.str (match t.kind with | .plain => "dict" | .dflt => "defaultdict"),
                    arr (t.items.map fun (k, v) => arr [natJ k, arr (v.map natJ)])]
 
-def stJ (s : St) : Json :=
-  Json.mkObj [
+def attrsJ (a : Attrs) : Json := arr (a.map fun (n, v) => arr [Json.str n, intJ v])
+
+def keyedJ (l : List (Nat × Attrs)) : Json := arr (l.map fun (i, a) => arr [natJ i, attrsJ a])
+
+def extraJ (e : Extra) : Json :=
+  Json.mkObj [("scenario", attrsJ e.scenario), ("network", attrsJ e.network), ("obstacles", keyedJ e.obstacles),
+              ("lanelets", keyedJ e.lanelets), ("signs", keyedJ e.signs), ("lights", keyedJ e.lights),
+              ("intersections", keyedJ e.intersections)]
+
+def stJ (s : St) (withExtra : Bool := true) : Json :=
+  Json.mkObj ([
     ("obstacles", arr (s.obstacles.map obstacleJ)),
-    ("net", Json.mkObj [("lanelets", arr (s.net.lanelets.map fun l => arr [natJ l.id, arr (l.cells.map intJ)])),
+    ("net", Json.mkObj [("lanelets", arr (s.net.lanelets.map fun l =>
+                            arr [natJ l.id, arr (l.cells.map intJ), arr (l.succ.map natJ), arr (l.pred.map natJ), arr (l.staticObs.map natJ),
+                                 arr (l.dynObs.map fun (t, ids) => arr [intJ t, arr (ids.map natJ)]), arr (l.lights.map natJ)])),
                          ("index", Json.bool s.net.index.isSome)]),
-    ("lights", arr (s.lights.map fun l => arr [natJ l.id, arr (l.es.map fun e => arr [natJ e.1, intJ e.2]), intJ l.off, Json.bool l.cache.isSome])),
-    ("problems", arr (s.problems.map fun p => arr [natJ p.id, arr (p.goals.map Json.bool), tblJ p.tbl]))]
+    ("lights", arr (s.lights.map fun l => arr [natJ l.id, arr (l.es.map fun e => arr [natJ e.1, intJ e.2]), intJ l.off, Json.bool l.cache.isSome, Json.bool l.active])),
+    ("problems", arr (s.problems.map fun p => arr [natJ p.id, tstateJ p.init, arr (p.goals.map attrsJ), tblJ p.tbl]))]
+    ++ (if withExtra then [("extra", extraJ s.extra)] else []))
 
 def occJ (o : Occ) : Json := arr [intJ o.lo, intJ o.hi]
 
@@ -191,7 +285,12 @@ def fileJ (f : FileAbs) : Json :=
     ("obstacles", arr (f.obstacles.map fun o =>
       arr [natJ o.id, namesJ o.init, arr (o.states.map fun (t, a) => arr [intJ t, namesJ a]),
            arr (o.occs.map fun c => arr [intJ c.lo, intJ c.hi])])),
-    ("problems", arr (f.problems.map fun (i, g) => arr [natJ i, arr (g.map fun ids => arr (ids.map natJ))]))]
+    ("problems", arr (f.problems.map fun p => arr [natJ p.id, arr (p.goalLanelets.map fun ids => arr (ids.map natJ))])),
+    ("problem_states", arr (f.problems.map fun p => arr [natJ p.id, namesJ p.init, arr (p.goals.map namesJ)])),
+    ("lanelets", arr (f.lanelets.map fun l => arr [natJ l.id, arr (l.succ.map natJ), arr (l.pred.map natJ), arr (l.lights.map natJ)])),
+    ("lights", arr (f.lights.map fun l => arr [natJ l.id, arr (l.es.map fun e => arr [natJ e.1, intJ e.2]), intJ l.off])),
+    ("signs", arr (f.extra.signs.map fun x => natJ x.1)),
+    ("intersections", arr (f.extra.intersections.map fun x => natJ x.1))]
 
 def outJ : Out → Json
   | .unit => Json.null
@@ -205,22 +304,30 @@ def outJ : Out → Json
   | .nat n => natJ n
   | .file f => fileJ f
   | .copy s => stJ s
+  | .bool b => Json.bool b
+  | .reach none => Json.null
+  | .reach (some i) => natJ i
+  | .mapping m => arr (m.map fun (l, os) => arr [natJ l, arr (os.map natJ)])
+  | .regs l => arr (l.map fun r => arr [arr (r.staticObs.map natJ), arr (r.dynObs.map fun (t, ids) => arr [intJ t, arr (ids.map natJ)])])
 
 def handle (opName : String) (a : Json) : P Json := do
   match opName with
   | "trace" =>
     let s ← st (← field a "st")
     let ops ← getList op a "ops"
-    let old := (fieldOpt a "old_pb").isSome
-    -- `old_pb`: run the protobuf writer as it was before the repair (used by the harness self-test only)
+    -- `sem`: "legacy" / "seeded" run another variant of the code (used for experiments only; the check uses the default)
+    let sem : Sem := match fieldOpt a "sem" with
+      | some (.str "legacy") => Sem.legacy
+      | some (.str "seeded") => Sem.seeded
+      | _ => Sem.repaired
     let rec go (ops : List Op) (s : St) (acc : List Json) : List Json :=
       match ops with
       | [] => acc.reverse
       | o :: rest =>
-        let r := match o, old with
-          | .writePb wp, true => stepPbOld wp s
-          | o, _ => step o s
-        go rest r.1 (Json.mkObj [("st", stJ r.1), ("out", resJ outJ r.2)] :: acc)
+        let r := step (sem := sem) o s
+        -- `Extra` is sent with the last step only (no operation of any variant writes it; the harness checks the last one
+        -- against the initial one and every implementation view against it)
+        go rest r.1 (Json.mkObj [("st", stJ r.1 rest.isEmpty), ("out", resJ outJ r.2)] :: acc)
     pure (arr (go ops s []))
   | "echo" => pure (stJ (← st (← field a "st")))
   | _ => throw s!"C18: unknown op {opName}"
